@@ -1,2 +1,163 @@
+(* C22 — Lock files give exclusive, atomic updates for every resource path.
+   Only statements here; every proof is [exact <lemma of Proofs.v / ProofsConc.v>].
+
+   Model: Model.v (std::path on unix byte strings, gix-lock add/strip_lock_suffix, gix-tempfile at_path
+   naming, acquire/commit/drop on an abstract unix file system), Interleave.v (one system call of one
+   actor per step).  Vocabulary:
+     valid_name n   n is non-empty, holds no '/', is not "." or ".." — ANY other bytes (0x80..0xff,
+                    dots anywhere, ill-formed UTF-8 ...)
+     dir_ok d       d is empty or ends in '/'  (so d ++ n is "a path whose last component is n")
+     lock_key p     the file-system entry the byte path p names (no symlinks in the model)
+     exclusive s    no two holder entries of state s name the same lock file, and every held lock
+                    file exists as a regular file *)
 From GixV.Base Require Import Bytes BytesFacts Outcome.
-From GixV.C22 Require Import Model Proofs.
+From GixV.C22 Require Import Model Spec Interleave Proofs ProofsConc.
+
+(* ---- naming, for every byte-string file name ------------------------------------------------- *)
+
+(* the lock path is the resource path with ".lock" appended *)
+Theorem lock_path_is_suffix : forall dir name, valid_name name -> dir_ok dir ->
+  add_lock_suffix (dir ++ name) = Ok (dir ++ name ++ DOT_LOCK).
+Proof. exact L_lock_path_is_suffix. Qed.
+
+(* resource_path() of that lock gives back exactly the resource path (no panic, no other file) *)
+Theorem resource_path_roundtrip : forall dir name, valid_name name -> dir_ok dir ->
+  strip_lock_suffix (dir ++ name ++ DOT_LOCK) = Ok (dir ++ name).
+Proof. exact L_strip_add. Qed.
+
+(* the file name gix-tempfile derives for creating the lock file is name ++ ".lock", byte for byte
+   (its lossy conversion only ever sees the extension "lock") *)
+Theorem lock_file_name_on_disk : forall dir name, valid_name name -> dir_ok dir ->
+  at_path_name (dir ++ name ++ DOT_LOCK) = name ++ DOT_LOCK.
+Proof. exact L_at_path_name. Qed.
+
+(* deriving the lock path never panics, for any byte string at all *)
+Theorem lock_path_total : forall p, exists q, add_lock_suffix p = Ok q.
+Proof. exact L_add_total. Qed.
+
+(* a path without a file name ("", "/", "..", "a/..") is left as it is *)
+Theorem lock_path_without_file_name : forall p, file_name p = None -> add_lock_suffix p = Ok p.
+Proof. exact L_add_no_file_name. Qed.
+
+(* different resources never share a lock path *)
+Theorem lock_path_injective : forall d1 n1 d2 n2 q,
+  valid_name n1 -> dir_ok d1 -> valid_name n2 -> dir_ok d2 ->
+  add_lock_suffix (d1 ++ n1) = Ok q -> add_lock_suffix (d2 ++ n2) = Ok q -> d1 ++ n1 = d2 ++ n2.
+Proof. exact L_lock_path_injective. Qed.
+
+(* the defects that were fixed (gix-lock a555135cc), as facts about the old definition: a non-UTF-8
+   extension was replaced by U+FFFD U+FFFD, and "x/..foo" was locked as "x/.." *)
+Theorem before_fix_lossy_extension_refuted :
+  let p := bs "res." ++ [xff; xfe] in
+  valid_name p /\ dir_ok [] /\
+  add_lock_suffix_before_fix p = Ok (bs "res." ++ REPL ++ REPL ++ DOT_LOCK) /\
+  add_lock_suffix_before_fix p <> Ok (p ++ DOT_LOCK).
+Proof. exact L_before_fix_lossy. Qed.
+Theorem before_fix_dotdot_name_refuted :
+  let d := bs "x/" in let n := bs "..foo" in
+  valid_name n /\ dir_ok d /\
+  add_lock_suffix_before_fix (d ++ n) = Ok (bs "x/..") /\
+  add_lock_suffix (d ++ n) = Ok (bs "x/..foo.lock").
+Proof. exact L_before_fix_dotdot. Qed.
+
+(* ---- exclusivity, for every interleaving ----------------------------------------------------- *)
+
+(* from any file system without holders, after ANY sequence of steps of ANY number of actors: at most
+   one holder per lock file, and every held lock file exists *)
+Theorem mutual_exclusion : forall fs0 s, reachable (fs0, []) s -> exclusive s.
+Proof. exact L_mutual_exclusion. Qed.
+
+Theorem one_holder_per_lock_file : forall fs0 fs hs, reachable (fs0, []) (fs, hs) ->
+  forall i j h1 h2, nth_error hs i = Some h1 -> nth_error hs j = Some h2 -> hkey h1 = hkey h2 -> i = j.
+Proof. exact L_one_holder. Qed.
+
+(* while somebody holds a lock, every attempt to create that lock file fails — also through a
+   different spelling of the same path *)
+Theorem held_lock_refuses_others : forall fs0 fs hs t l l' ino, reachable (fs0, []) (fs, hs) ->
+  In (t, l) hs -> lock_key l' = lock_key l -> exists e, sys_create_excl fs l' ino = RErr e.
+Proof. exact L_held_lock_refuses. Qed.
+
+(* one step keeps the invariant (the induction step, stated on its own) *)
+Theorem step_keeps_exclusive : forall s t a s', exclusive s -> step s t a s' -> exclusive s'.
+Proof. exact L_step_exclusive. Qed.
+
+(* ---- acquire / commit / drop on the file system ------------------------------------------------ *)
+
+Theorem acquire_creates_the_lock_file : forall fs ino r b kind fs' h,
+  acquire fs ino r b kind = Ok (fs', AcqOk h) ->
+  add_lock_suffix r = Ok (h_lock h) /\ h_ino h = ino /\ h_boundary h = b /\
+  fs_get fs' (lock_key (h_created h)) = Some (NFile ino []).
+Proof. exact L_acquire_ok. Qed.
+
+(* committing replaces exactly the resource: the resource entry becomes the lock file (same inode,
+   same content), the lock entry disappears, every other entry is untouched *)
+Theorem commit_replaces_exactly_the_resource : forall fs h fs' res,
+  commit_handle fs h = Ok (fs', Some res) ->
+  strip_lock_suffix (h_lock h) = Ok res /\
+  exists i c, fs_get fs (lock_key (h_created h)) = Some (NFile i c) /\
+    fs_get fs' (lock_key res) = Some (NFile i c) /\
+    (lock_key (h_created h) <> lock_key res -> fs_get fs' (lock_key (h_created h)) = None) /\
+    forall k, k <> lock_key (h_created h) -> k <> lock_key res -> fs_get fs' k = fs_get fs k.
+Proof. exact L_commit_replaces_exactly. Qed.
+
+Theorem failed_commit_changes_nothing : forall fs h fs',
+  commit_handle fs h = Ok (fs', None) -> fs' = fs.
+Proof. exact L_commit_failure_changes_nothing. Qed.
+
+(* dropping an uncommitted lock: every entry is as before, except that the lock file is gone and
+   directories may be gone; in particular the resource and every other regular file are untouched *)
+Theorem drop_leaves_everything_else : forall fs h fs', drop_handle fs h = Ok fs' ->
+  forall k, fs_get fs' k = fs_get fs k \/
+            (k = lock_key (h_created h) /\ fs_get fs' k = None) \/
+            (fs_get fs k = Some NDir /\ fs_get fs' k = None).
+Proof. exact L_drop_leaves_everything_else. Qed.
+
+Theorem drop_removes_the_lock_file : forall fs h fs' k,
+  kresolve fs (h_created h) = ROk (TName k false) -> is_file fs k ->
+  drop_handle fs h = Ok fs' -> fs_get fs' k = None.
+Proof. exact L_drop_removes_lock. Qed.
+
+(* ---- non-vacuity ----------------------------------------------------------------------------- *)
+
+Definition ex_name : bytes := bs "res." ++ [xff; xfe].     (* ill-formed UTF-8 extension *)
+Example ex_valid : valid_name ex_name /\ valid_name (bs "..foo") /\ valid_name (bs "foo.") /\
+                   dir_ok (bs "/R/a.b/") /\ dir_ok [].
+Proof.
+  repeat split; try discriminate; try (left; reflexivity). right. exists (bs "/R/a.b"). reflexivity.
+Qed.
+Example ex_lock : add_lock_suffix (bs "/R/a.b/" ++ ex_name) = Ok (bs "/R/a.b/res." ++ [xff; xfe] ++ bs ".lock").
+Proof. reflexivity. Qed.
+Example ex_no_file_name : file_name (bs "a/..") = None /\ file_name [] = None /\ file_name (bs "/") = None.
+Proof. repeat split. Qed.
+
+(* a run: actor 1 locks /R/x, actor 2 fails, actor 1 writes and commits, actor 2 locks and drops *)
+Definition ex_fs0 : fsT := [([], NDir); ([bs "R"], NDir); ([bs "R"; bs "x"], NFile 9 (bs "old"))].
+Example ex_run :
+  exists s, reachable (ex_fs0, []) s /\
+    fs_get (fst s) [bs "R"; bs "x"] = Some (NFile 1 (bs "new")) /\ snd s = [] /\
+    fs_get (fst s) [bs "R"; bs "x.lock"] = None.
+Proof.
+  eexists. split.
+  - eapply R_step. eapply R_step. eapply R_step. eapply R_step. eapply R_step. eapply R_step. apply R_init.
+    + apply (S_lock_ok _ _ 1%nat (bs "/R/x.lock") 1%N). reflexivity.
+    + apply (S_lock_err _ _ 2%nat (bs "/R/./x.lock") 2%N EEXIST). reflexivity.
+    + apply (S_write _ _ 1%nat 1%N (bs "new")).
+    + apply (S_commit_ok _ _ 1%nat (bs "/R/x.lock") (bs "/R/x")); [left; reflexivity|reflexivity].
+    + apply (S_lock_ok _ _ 2%nat (bs "/R/x.lock") 2%N). reflexivity.
+    + apply (S_drop_ok _ _ 2%nat (bs "/R/x.lock")); [left; reflexivity|reflexivity].
+  - repeat split.
+Qed.
+
+(* acquire / commit / drop of the model on the same file system *)
+Example ex_acquire_commit :
+  exists fs1 h fs2, acquire ex_fs0 5 (bs "/R/d/e/" ++ ex_name) (Some (bs "/R")) KFile = Ok (fs1, AcqOk h) /\
+    h_lock h = bs "/R/d/e/" ++ ex_name ++ DOT_LOCK /\
+    commit_handle fs1 h = Ok (fs2, Some (bs "/R/d/e/" ++ ex_name)) /\
+    fs_get fs2 [bs "R"; bs "d"; bs "e"; ex_name] = Some (NFile 5 []).
+Proof. eexists _, _, _. repeat split. Qed.
+Example ex_acquire_drop :
+  exists fs1 h fs2, acquire ex_fs0 5 (bs "/R/d/e/" ++ ex_name) (Some (bs "/R")) KFile = Ok (fs1, AcqOk h) /\
+    fs_get fs1 [bs "R"; bs "d"; bs "e"] = Some NDir /\
+    drop_handle fs1 h = Ok fs2 /\
+    fs_get fs2 [bs "R"; bs "d"] = None /\ fs_get fs2 [bs "R"; bs "x"] = Some (NFile 9 (bs "old")).
+Proof. eexists _, _, _. repeat split. Qed.
